@@ -172,21 +172,36 @@ class _Dir:
         self.fs.log.append(("mkdir", self.name_))
 
 
-def patch_pathlib(fs_ref: typing.List[FakeFS]) -> None:
+def patch_pathlib(fs_ref: typing.List[FakeFS], root: str = "/out") -> None:
     """For pipeline harnesses that go through real pathlib.Path objects: route the mutating/inspecting calls nunavut's
-    generators make (mkdir, chmod, exists, stat) to the FakeFS in fs_ref[0]."""
+    generators make (mkdir, chmod, exists, stat) to the FakeFS in fs_ref[0] for every path under `root` (the fake output
+    directory); everything else (package resources, DSDL inputs) keeps using the real file system, read-only."""
     import pathlib
 
+    real_mkdir, real_chmod, real_exists, real_stat = pathlib.Path.mkdir, pathlib.Path.chmod, pathlib.Path.exists, pathlib.Path.stat
+
+    def under(p: typing.Any) -> bool:
+        sp = str(p)
+        return sp == root or sp.startswith(root + "/")
+
     def _mkdir(self: typing.Any, *a: typing.Any, **k: typing.Any) -> None:
+        if not under(self):
+            return real_mkdir(self, *a, **k)
         fs_ref[0].log.append(("mkdir", str(self)))
 
     def _chmod(self: typing.Any, mode: int, **k: typing.Any) -> None:
+        if not under(self):
+            return real_chmod(self, mode, **k)
         FakePath(fs_ref[0], str(self)).chmod(mode)
 
     def _exists(self: typing.Any, **k: typing.Any) -> bool:
+        if not under(self):
+            return real_exists(self, **k)
         return str(self) in fs_ref[0].files
 
-    def _stat(self: typing.Any, **k: typing.Any) -> _Stat:
+    def _stat(self: typing.Any, **k: typing.Any) -> typing.Any:
+        if not under(self):
+            return real_stat(self, **k)
         return FakePath(fs_ref[0], str(self)).stat()
 
     pathlib.Path.mkdir = _mkdir      # type: ignore
